@@ -101,6 +101,7 @@ struct VariantOut<T: Sc> {
     log: Vec<Event>,
     build_snap: Option<Snap>,
     build_panic: Option<String>,
+    build: Result<(), String>,
     stats: ExecStats,
 }
 
@@ -123,6 +124,7 @@ fn run_variant_plain<T: Sc, F: Factory<T>>(sc: &Scenario, parallel: bool, sched:
         log: ctl.log(),
         build_snap: r.build_snap.clone(),
         build_panic: r.build_panic.clone(),
+        build: r.build.clone(),
         stats: exec.stats(),
     }
 }
@@ -421,6 +423,9 @@ fn exec_t<T: Sc, F: Factory<T>>(sc: &Scenario) -> RunReport {
     rep.events += a.log.len() as u64;
     if let Some(p) = &a.build_panic {
         rep.violate(sc, "PANIC", &format!("build@{}", panic_site(p)), p.clone());
+    }
+    if sc.faults.is_empty() {
+        expect_built(sc, &mut rep, &a.build, a.build_panic.is_some(), "");
     }
     for st in &a.steps {
         if let Some(p) = &st.panic {
